@@ -11,11 +11,12 @@ TRUST = ('Trusted: TLC 1.8.0 evaluating the TLA+ operators as written; the recor
 CTX_TEXT = ('Code->spec trace validation: every public call of this family is executed on the real library over '
             'all boolean tables up to the tier bound plus structured / random / wide / mid-wide / huge-thin / giant-'
             'axis tables and lattices up to 1000+ concepts, in both states of the lazy-lattice cache, with live sibling '
-            'contexts (same labels, other table, incl. CRC32 twins), several argument kinds and under python -O; each '
+            'contexts (same labels, other table, incl. CRC32 twins), several argument kinds (containers, one-shot iterators, '
+            '1/0 and count cells) and under python -O; each '
             'recorded event is validated by TLC against the TLA+ state machine ContextSys/TraceCtx (every clause of '
             'the property on every event). Spec->code: TLC\'s simulator chooses sessions of several same-label '
-            'handles on SessionSys.tla (create / query family / failing call / copy / pickle / export-reload / drop in '
-            'any order) that are replayed on real objects and validated the same way. The oracle is model checked against the literal property statement on all '
+            'handles on SessionSys.tla (create / query family / failing call / aborted drawing / copy / pickle / '
+            'export-reload / orphaned concepts / drop in any order) that are replayed on real objects and validated the same way. The oracle is model checked against the literal property statement on all '
             'small tables (Theorems.tla, 22 invariants), the handle state machine and implementation-shaped models of '
             'Lindig / FCbO / the heap merge are explored exhaustively (MC_ContextSys, Algorithms.tla), and the Galois / '
             'closure core is proved for all sizes with TLAPS (thorough tier).')
